@@ -42,6 +42,11 @@ FIXED = [
 ]
 
 OPEN = [
+ {"id": "KF-C11-dependent-product-n1", "property": "C11", "status": "open", "design_item": "D30",
+  "match": {"kind": "not_uniform", "dep_product": True, "mode": "small", "nsmall": 1},
+  "what": "ProductDomain whose first factor depends on the second, sample_random_uniform(n=1): _sample_uniform_b_points returns the single partner value without the volume-weighted acceptance (the shortcut for one volume), so the partner coordinate is uniform on the second factor instead of weighted by the measure of the first factor",
+  "witness": "Circle(x; radius 1 + 0.25 s) * Interval(s): 3000 calls with n=1, two-sample chi-square against the twin rejection sampler p < 1e-9 (C11 seed 3); E[s] = 0.495 instead of 0.703 in the design experiment e3",
+  "why_not_fixed": "with a single proposal there is no maximum volume to accept against; an unbiased n=1 needs a bound of the first factor's volume over the second factor (not available) or a loop with a running maximum - a redesign"},
  {"id": "KF-C05-transformed-boundary-float32", "property": "C05", "status": "open", "design_item": "D53",
   "match": {"kind": "boundary_rejects_own_sample", "root": ["rotate", "translate", "product"], "frac": {"max": 0.1}},
   "what": "boundaries of rotated / translated / product domains occasionally (a few percent of the rows) reject their own float32 boundary samples: the sample is transformed forward in float32 and pulled back in _contains, and the inner boundary tests use absolute tolerances (1e-6 for ShapelyBoundary, 1e-5 barycentric) that the two roundings exceed at coordinates of a few sizes",
